@@ -49,7 +49,7 @@ Fixpoint fmt_go (f : str) (key : option str) (env : list (str * str)) : str :=
 Definition fmt (f : string) (env : list (str * str)) : str := fmt_go (s_ f) None env.
 
 (* the format strings, verbatim (checked against the source on every run: run/C24/Tie_C24.v) *)
-Definition FMT_DER  : string := "({var:s}).diff(self.t)".               (* generator.py:162 *)
+Definition FMT_DER  : string := "sympy.sympify({var:s}).diff(self.t)".               (* generator.py:162 *)
 Definition FMT_BIN  : string := "({left:s}) {op:s} ({right:s})".        (* generator.py:164 *)
 Definition FMT_UN   : string := "{op:s} ({expr:s})".                    (* generator.py:170 *)
 Definition FMT_CALL : string := "{tree.operator.name:s}({operand_src:s})". (* generator.py:173 *)
@@ -155,7 +155,8 @@ Inductive tok :=
 | TDiff                               (* the trailer .diff(self.t) *)
 | TSelfT                              (* self.t *)
 | TName (s : str)
-| TNum (lit : str) (v : Qc).
+| TNum (lit : str) (v : Qc)
+| TSympify.                           (* sympy.sympify : opens the der() argument together with ( *)
 
 Fixpoint joint (sep : list tok) (l : list (list tok)) : list tok :=
   match l with
@@ -171,7 +172,7 @@ Fixpoint print_tok (B : list str) (e : expr) : list tok :=
   | ENum lit v => [TNum lit v]
   | EBin o l r => [TLp] ++ print_tok B l ++ [TRp; TSp; TOp o; TSp; TLp] ++ print_tok B r ++ [TRp]
   | EUn neg a => [TOp (if neg then Sub else Add); TSp; TLp] ++ print_tok B a ++ [TRp]
-  | EDer a => [TLp] ++ print_tok B a ++ [TRp; TDiff]
+  | EDer a => [TSympify; TLp] ++ print_tok B a ++ [TRp; TDiff]
   | ECall f args => [TName f; TLp] ++ joint [TComma] (map (print_tok B) args) ++ [TRp]
   end.
 Definition print_tok_eq (B : list str) (l r : expr) : list tok :=
@@ -185,6 +186,7 @@ Definition spell (t : tok) : str :=
   | TSelfT => SELF_T
   | TName s => s
   | TNum lit _ => lit
+  | TSympify => s_ "sympy.sympify"
   end.
 Definition render (ts : list tok) : str := flat_map spell ts.
 Definition strip (ts : list tok) : list tok :=
@@ -199,7 +201,8 @@ Definition strip (ts : list tok) : list tok :=
 Inductive pexpr :=
 | PName (s : str) | PNum (lit : str) (v : Qc) | PSelfT
 | PBin (o : binop) (a b : pexpr) | PUn (neg : bool) (a : pexpr)
-| PDiff (a : pexpr) | PCall (f : str) (args : list pexpr).
+| PDiff (a : pexpr) | PCall (f : str) (args : list pexpr)
+| PWrap (a : pexpr).                  (* sympy.sympify(a): same meaning as a *)
 
 Definition binlvl (o : binop) : option nat :=
   match o with Add | Sub => Some 1 | Mul | Div => Some 2 | Pow => None end.
@@ -233,6 +236,8 @@ with pa (n : nat) (ts : list tok) {struct n} : option (pexpr * list tok) :=     
         match pargs n r with Some (args, r') => Some (ptr (PCall f args) r') | None => None end
     | TName x :: r => Some (ptr (PName x) r)
     | TLp :: r => match pe n 1 r with Some (a, TRp :: r') => Some (ptr a r') | _ => None end
+    | TSympify :: TLp :: r =>
+        match pe n 1 r with Some (a, TRp :: r') => Some (ptr (PWrap a) r') | _ => None end
     | _ => None
     end
   end
@@ -274,19 +279,45 @@ Definition py_parse (n : nat) (ts : list tok) : option pexpr :=
   match pe n 1 (strip ts) with Some (a, []) => Some a | _ => None end.
 
 (* ---------------------------------------------------------------------------
-   evaluation.  [powf] and [callf] (sin, cos, ...) are uninterpreted and applied identically
-   on both sides; division by zero = None. *)
-Section Sem.
-  Variable powf : Qc -> Qc -> option Qc.
-  Variable callf : str -> list Qc -> option Qc.
+   evaluation in DUAL numbers (value, time derivative): every quantity carries its derivative, der(e)
+   of an arbitrary expression is the derivative component (sum / product / quotient rules), and the
+   printed (e).diff(self.t) is evaluated the same way.  [powf] and [callf] (sin, cos, ...) are
+   uninterpreted on duals and applied identically on both sides; division by zero = None; der()
+   nested inside der() (second derivatives) is not modelled (None on both sides). *)
+Definition dual : Type := (Qc * Qc)%type.
 
-  Definition bin_sem (o : binop) (a b : Qc) : option Qc :=
+Fixpoint pdiff_free (e : pexpr) : bool :=
+  match e with
+  | PDiff _ => false
+  | PBin _ a b => pdiff_free a && pdiff_free b
+  | PUn _ a => pdiff_free a
+  | PCall _ args => forallb pdiff_free args
+  | PWrap a => pdiff_free a
+  | _ => true
+  end.
+Fixpoint der_free (e : expr) : bool :=
+  match e with
+  | EDer _ => false
+  | EBin _ a b => der_free a && der_free b
+  | EUn _ a => der_free a
+  | ECall _ args => forallb der_free args
+  | _ => true
+  end.
+
+Section Sem.
+  Variable powf : dual -> dual -> option dual.
+  Variable callf : str -> list dual -> option dual.
+
+  Definition bin_sem (o : binop) (a b : dual) : option dual :=
     match o with
-    | Add => Some (a + b) | Sub => Some (a - b) | Mul => Some (a * b)
-    | Div => if Qc_eq_dec b 0 then None else Some (a / b)
+    | Add => Some (fst a + fst b, snd a + snd b)
+    | Sub => Some (fst a - fst b, snd a - snd b)
+    | Mul => Some (fst a * fst b, snd a * fst b + fst a * snd b)
+    | Div => if Qc_eq_dec (fst b) 0 then None
+             else Some (fst a / fst b, (snd a * fst b - fst a * snd b) / (fst b * fst b))
     | Pow => powf a b
     end%Qc.
-  Definition un_sem (neg : bool) (a : Qc) : Qc := if neg then (- a)%Qc else a.
+  Definition un_sem (neg : bool) (a : dual) : dual := if neg then (- fst a, - snd a)%Qc else a.
   Definition obind {A B} (x : option A) (f : A -> option B) : option B :=
     match x with Some a => f a | None => None end.
   Fixpoint oseq {A} (l : list (option A)) : option (list A) :=
@@ -294,39 +325,39 @@ Section Sem.
     | [] => Some []
     | x :: r => obind x (fun a => obind (oseq r) (fun l' => Some (a :: l')))
     end.
+  (* the value of der(e) is the derivative component of e; its own derivative is not tracked *)
+  Definition der_of (d : dual) : dual := (snd d, 0%Qc).
 
   (* Python side: values of identifiers, of their time derivatives, and of self.t *)
   Record penv := PEnv { p_var : str -> Qc; p_der : str -> Qc; p_t : Qc }.
-  Fixpoint peval (E : penv) (e : pexpr) : option Qc :=
+  Fixpoint peval (E : penv) (e : pexpr) : option dual :=
     match e with
-    | PName s => Some (p_var E s)
-    | PNum _ v => Some v
-    | PSelfT => Some (p_t E)
+    | PName s => Some (p_var E s, p_der E s)
+    | PNum _ v => Some (v, 0%Qc)
+    | PSelfT => Some (p_t E, 1%Qc)
     | PBin o a b => obind (peval E a) (fun x => obind (peval E b) (fun y => bin_sem o x y))
     | PUn neg a => obind (peval E a) (fun x => Some (un_sem neg x))
-    | PDiff (PName s) => Some (p_der E s)
-    | PDiff PSelfT => Some 1%Qc
-    | PDiff _ => None                      (* der() of a general expression: not modelled *)
+    | PDiff a => if pdiff_free a then obind (peval E a) (fun d => Some (der_of d)) else None
     | PCall f args => obind (oseq (map (peval E) args)) (callf f)
+    | PWrap a => peval E a
     end.
 
   (* Modelica side: flat names; [m_decl_time] = the model declares a component called "time" *)
   Record menv := MEnv { m_var : str -> Qc; m_der : str -> Qc; m_t : Qc; m_decl_time : bool }.
   Definition is_time (M : menv) (n : str) : bool := str_eqb n TIME && negb (m_decl_time M).
-  Fixpoint m_eval (M : menv) (e : expr) : option Qc :=
+  Fixpoint m_eval (M : menv) (e : expr) : option dual :=
     match e with
-    | EVar n => Some (if is_time M n then m_t M else m_var M n)
-    | ESym n => Some (m_var M n)
-    | ENum _ v => Some v
+    | EVar n => Some (if is_time M n then (m_t M, 1%Qc) else (m_var M n, m_der M n))
+    | ESym n => Some (m_var M n, m_der M n)
+    | ENum _ v => Some (v, 0%Qc)
     | EBin o a b => obind (m_eval M a) (fun x => obind (m_eval M b) (fun y => bin_sem o x y))
     | EUn neg a => obind (m_eval M a) (fun x => Some (un_sem neg x))
-    | EDer (EVar n) => Some (if is_time M n then 1%Qc else m_der M n)
-    | EDer (ESym n) => Some (m_der M n)
-    | EDer _ => None
+    | EDer a => if der_free a then obind (m_eval M a) (fun d => Some (der_of d)) else None
     | ECall f args => obind (oseq (map (m_eval M) args)) (callf f)
     end.
+  (* the residual lhs - rhs (value component) *)
   Definition m_eval_eq (M : menv) (l r : expr) : option Qc :=
-    obind (m_eval M l) (fun x => obind (m_eval M r) (fun y => Some (x - y)%Qc)).
+    obind (m_eval M l) (fun x => obind (m_eval M r) (fun y => Some (fst x - fst y)%Qc)).
 
   (* the Modelica environment a Python environment induces through the mangling *)
   Definition pull (B : list str) (E : penv) (decl_time : bool) : menv :=
